@@ -253,7 +253,10 @@ class QInv:
 
 
 class Engine:
+    callsite_normal = {}
+
     def __init__(self, registry):
+        self.callsite_normal = {}
         self.R = registry             # .contracts, .specs, .models, .globals, .methods
         self.obligations = []
         self.unsupported = []         # (function, reason)
@@ -1580,6 +1583,11 @@ class Engine:
             if getattr(c, "log_calls", True):
                 s1.event("call", c.name, a, "return", res)
             out.append(Res(s1, res))
+            self.callsite_normal.setdefault(c.name, [0, 0])[0] += 1
+        elif getattr(c, "can_return", True):
+            # the callee's normal outcome contradicts the caller's path here (its postcondition is infeasible): counted, so that a callee
+            # whose normal return is dropped at EVERY call site (a modelling gap would look like that) shows up in the evidence
+            self.callsite_normal.setdefault(c.name, [0, 0])[1] += 1
         for q, meth in c.raises.items():
             s2 = st.fork()
             self.havoc(s2, c.modifies(self, s2, a))
